@@ -73,7 +73,7 @@ RULES = {
         "parameters being equal, i.e. the call with &x == this is provided for) and has no `this == &x` guard must itself be alias safe: no "
         "accessor of x that reads scalar slot k (rows(), columns(), size(), ...) or x's arrays may execute after this's slot k / arrays were "
         "written (accessor assignment `_rows() = ...`, _scalar_index update, move/clear/clone of *this) on any CFG path - with &x == this the "
-        "read returns the new value. Broken -> a.transpose(a) of an m x n DenseMatrix yields wrong dimensions.", 1),
+        "read returns the new value. Broken -> a.transpose(a) of an m x n DenseMatrix yields wrong dimensions.", 2),
     "C02.E2.offset-store-unconditional": (
         "count/fill loop nests (E3): a store P[v + c] = ... into a locally held index array by the variable v of an enclosing counting loop "
         "(the per-row store of a row pointer, row_ptr[l + 1] = cursor) is needed for every iteration of that row loop whether or not the "
